@@ -1,4 +1,4 @@
-CONSTANT NP = 12
+CONSTANT NP = 14
 INIT Init
 NEXT Next
 CHECK_DEADLOCK FALSE
